@@ -265,7 +265,7 @@ RunResult run(J const &plan) {
   sim.finish(res);
   res.counters["probe.steps_checked"] += steps_checked;
   res.counters["probe.nodes_checked"] += nodes_checked;
-  res.counters["probe.restarts"] += restarts;
+  res.counters["probe.restarts"] += restarts; res.counters["fault.stop_and_restart"] += restarts;
   res.counters["probe.samples"] += samples;
   res.nontrivial = samples > 0 && nodes_checked > 0;
   res.class_hash = fnv_str(sc.at("template").as_str(), 16);
